@@ -742,6 +742,9 @@ def merge_measure_contents(notes, other, measure_start, measure_end=None, last=T
 
 def do_directions(part, start, end, counter):
     result = []
+    # range elements (wedges, dashes) whose number is still to be assigned:
+    # numbers have to be given out in document (i.e. time) order, stops first
+    numbered = []
 
     # ending directions
     directions = part.iter_all(
@@ -758,12 +761,12 @@ def do_directions(part, start, end, counter):
         e1 = etree.SubElement(e0, "direction-type")
 
         if getattr(direction, "wedge", False):
-            number = range_number_from_counter(direction, "wedge", counter)
-            e2 = etree.SubElement(e1, "wedge", number="{}".format(number), type="stop")
+            e2 = etree.SubElement(e1, "wedge", number="", type="stop")
+            numbered.append((direction.end.t, 0, e2, direction, "wedge"))
 
         else:
-            number = range_number_from_counter(direction, "wedge", counter)
-            etree.SubElement(e1, "dashes", number="{}".format(number), type="stop")
+            e2 = etree.SubElement(e1, "dashes", number="", type="stop")
+            numbered.append((direction.end.t, 0, e2, direction, "dashes"))
 
         elem = (direction.end.t, None, e0)
         result.append(elem)
@@ -845,10 +848,8 @@ def do_directions(part, start, end, counter):
                 else:
                     wtype = "diminuendo"
 
-                number = range_number_from_counter(direction, "wedge", counter)
-                e2 = etree.SubElement(
-                    e1, "wedge", number="{}".format(number), type=wtype
-                )
+                e2 = etree.SubElement(e1, "wedge", number="", type=wtype)
+                numbered.append((direction.start.t, 1, e2, direction, "wedge"))
 
             else:
                 e2 = etree.SubElement(e1, "words")
@@ -859,10 +860,8 @@ def do_directions(part, start, end, counter):
                     and direction.end is not None
                 ):
                     e3 = etree.SubElement(e0, "direction-type")
-                    number = range_number_from_counter(direction, "dashes", counter)
-                    etree.SubElement(
-                        e3, "dashes", number="{}".format(number), type="start"
-                    )
+                    e4 = etree.SubElement(e3, "dashes", number="", type="start")
+                    numbered.append((direction.start.t, 1, e4, direction, "dashes"))
 
             if direction.staff is not None and direction.staff != 1:
                 e5 = etree.SubElement(e0, "staff")
@@ -870,6 +869,10 @@ def do_directions(part, start, end, counter):
 
             elem = (direction.start.t, None, e0)
             result.append(elem)
+
+    for _, _, range_e, direction, label in sorted(numbered, key=lambda x: x[:2]):
+        number = range_number_from_counter(direction, label, counter)
+        range_e.set("number", "{}".format(number))
 
     return result
 
